@@ -241,7 +241,10 @@ async fn handle_stream(
             };
         }
 
-        let tx = ts.get_mut(topic).unwrap();
+        // Hand the socket over without holding the lock on the topic map: a topic whose router
+        // is stalled (and whose registration queue is full) must not block every other topic.
+        let mut tx = ts.get(topic).unwrap().clone();
+        drop(ts);
 
         match frame {
             Frame::RegisterPublisher(_) => {
